@@ -497,13 +497,19 @@ def gen_scenario(rng, sid, p_malformed=0.15, max_depth=5, p_multi=0.3, allow_asy
     # listeners attached after construction, each `add_listener` call a pass of its own: a guard given by name whose
     # names a late pass provides is built again over that pass's providers and must hold there as well
     late = []
+    ctor_also = []
     has_coro = any(k == "coro" for ps in names.values() for _, k in ps)
     on_l = [p for p in ("L0", "L1") if any(q == p for ps in names.values() for q, _ in ps)]
     if malformed is None and not force_async and not has_coro and on_l and rng.random() < 0.3:
-        late = rng.choice([[["L1"]], [["L0"]], [["L0"], ["L1"]], [["L0", "L1"]], [["L1"], ["L0"]]])
+        late = rng.choice([[["L1"]], [["L0"]], [["L0"], ["L1"]], [["L0", "L1"]], [["L1"], ["L0"]],
+                           [["L0"], ["L0", "L1"]], [["L1"], ["L1", "L0"]], [["L0", "L1"], ["L1"]]])
         late = [[p for p in ps if p in on_l] for ps in late]
         late = [ps for ps in late if ps]
-        late_set = {p for ps in late for p in ps}
+        # a listener of a late pass may also have been given to the constructor (attached again, alone or together
+        # with a newcomer in one call)
+        if late and rng.random() < 0.35:
+            ctor_also = [rng.choice(sorted({p for ps in late for p in ps}))]
+        late_set = {p for ps in late for p in ps} - set(ctor_also)
         for nm, ps in names.items():
             if ps and all(p in late_set for p, _ in ps) and rng.random() < 0.85:
                 # (otherwise nothing provides the name at construction: InvalidDefinition, as the Spec says)
@@ -543,7 +549,7 @@ def gen_scenario(rng, sid, p_malformed=0.15, max_depth=5, p_multi=0.3, allow_asy
     event_deco = rng.random() < 0.5
     return dict(id=sid, names=names, entries=entries, rounds=rounds, force_async=force_async,
                 malformed=malformed, via_any=via_any, same_free_names=same_free_names, falsy_callables=falsy_callables,
-                event_deco=event_deco, late=late)
+                event_deco=event_deco, late=late, ctor_also=ctor_also)
 
 
 # ----------------------------------------------------------------------------- small-scope enumeration
